@@ -61,6 +61,10 @@ CLAIMED = {
   text="Deductive proof, per handler (headers 5, tips 2, merkleroots 2, webhook 3, access 3, network 2) and for ErrorResponse/AbortWithErrorResponse/mapAndLog, over the ghost effect log RESP of gin.Context: a fresh request is answered by exactly one JSON document whose status is 200, or 4xx with a ResponseError{code,message} body, or 5xx only when storage failed; no handler panics on any parameter, query or body value; the header store is not modified (HS outside every handler's frame). Error classes of the service methods are port contracts (okErr).",
   note="Assumed: gin Context method semantics (read from gin v1.10.0: Bind* writes 400 and aborts on error, JSON writes status+body), strconv/json, the service ports' error classes (proved for the token service; header/merkleroot/webhook services' error classes are assumed here and partly proved under C04/C08/C12); the status endpoint (empty 200) is outside the claim; gin recovery middleware is not modelled.",
   design="4 C16"),
+ "C20": dict(
+  text="Deductive proof that DbConfig.Validate / AppConfig.Validate accept a configuration exactly when it selects a supported engine (sqlite with a non-empty path, or postgres with host, port, user and database name) and, if a prepared database is requested, names an existing file (ghost FS.exists behind os.Stat), and that GetDefaultAppConfig returns all eight sections non-nil with a valid default database section; plus structural obligations (types and SSA, no solver) for the precedence mechanism: every field on the way to each of the 34 leaf keys of AppConfig carries a plain lower-case mapstructure name without options (omitempty/squash/'-' would drop a zero default from the registered defaults and the key would stop honouring its BHS_ variable), key names are unique per section, SetDefaults registers mapstructure.Decode(GetDefaultAppConfig()) key by key through viper.SetDefault and then calls envConfig, envConfig sets prefix bhs, replaces '.' by '_' and calls AutomaticEnv, and Load reads the selected file before viper.Unmarshal.",
+  note="Assumed, not proved: viper's resolution order (explicit Set > env > config file > default) and mapstructure's decoding - library behaviour behind reflection, outside the verified subset; that the registered defaults equal the documented ones (config.example.yaml differs from defaults.go for logging.origin and logging.instance_name - documentation, not checked); os.Stat. The structural obligations are syntactic facts about the type and the SSA, enumerated from the code on every run (new keys are included).",
+  design="4 C20"),
 }
 
 NOT_APPLICABLE = {
